@@ -13,7 +13,7 @@ RECURSIVE KeysPreSeq(_, _)
 KeysPreSeq(xs, i) == IF i > Len(xs) THEN <<>> ELSE KeysPre(xs[i]) \o KeysPreSeq(xs, i + 1)
 KeysPre(m) ==
   IF m.f \in {"pk_k", "pk_h"} THEN <<m.n>>
-  ELSE IF m.f \in {"multi", "multi_a"} THEN m.ks
+  ELSE IF m.f \in {"multi", "multi_a", "sortedmulti", "sortedmulti_a"} THEN m.ks
   ELSE KeysPreSeq(m.xs, 1)
 
 \* first occurrences in order must be 1, 2, 3, ...
